@@ -492,7 +492,8 @@ func cmdCommit(ss *serverSession) {
 }
 
 func cmdConnections(ss *serverSession) {
-	ss.PutBool(true).PutVal(connections())
+	conns := ss.sc.dbms.Connections() // refused by DbmsUnauth
+	ss.PutBool(true).PutVal(conns)
 }
 
 func connections() *SuObject {
@@ -518,6 +519,7 @@ func cmdCursor(ss *serverSession) {
 }
 
 func cmdCursors(ss *serverSession) {
+	ss.sc.dbms.Cursors() // refused by DbmsUnauth
 	ss.PutBool(true).PutInt(len(ss.cursors))
 }
 
@@ -697,7 +699,7 @@ func cmdKeys(ss *serverSession) {
 
 func cmdKill(ss *serverSession) {
 	sessionId := ss.GetStr()
-	n := kill(sessionId)
+	n := ss.sc.dbms.Kill(sessionId) // refused by DbmsUnauth
 	ss.PutBool(true).PutInt(n)
 }
 
@@ -860,7 +862,7 @@ func cmdTimestamp(ss *serverSession) {
 }
 
 func cmdToken(ss *serverSession) {
-	tok := Token()
+	tok := ss.sc.dbms.Token() // refused by DbmsUnauth
 	ss.PutBool(true).PutStr(tok)
 }
 
